@@ -384,41 +384,7 @@ func c15(c *Ctx) (*report.Result, error) {
 		}
 		res.Check(ok, "O15.6", "IsAllowedWorkflowMigrationAPIs = !Contains(deny-list, action)", fnPos(c.Prog, f), "negated membership of the argument in workflowServiceDisallowedAPIs", "the function is not the negated membership test of its argument in the deny-list")
 	}
-	if f := resolve(c, res, "O15.6", anchor{"auth", "*AccessControl", "IsAllowed"}); f != nil {
-		// returns true only under len(allowedMap)==0, otherwise the map lookup of the argument
-		ok := true
-		for _, b := range f.Blocks {
-			for _, ins := range b.Instrs {
-				ret, isR := ins.(*ssa.Return)
-				if !isR {
-					continue
-				}
-				if cb, isC := flow.ConstBool(flow.Ret(ret)[0]); isC {
-					if !cb {
-						continue
-					}
-					// constant true: must be under len(..)==0
-					g := flow.NormGuards(flow.Guards(b))
-					found := false
-					for _, x := range g {
-						if bo, isB := x.Cond.(*ssa.BinOp); isB && bo.Op == token.EQL && x.Side {
-							if n, isN := flow.ConstInt(bo.Y); isN && n == 0 {
-								found = true
-							}
-						}
-					}
-					if !found {
-						ok = false
-					}
-					continue
-				}
-				if lk, isL := flow.Ret(ret)[0].(*ssa.Lookup); !isL || lk.Index != ssa.Value(f.Params[1]) {
-					ok = false
-				}
-			}
-		}
-		res.Check(ok, "O15.6", "AccessControl.IsAllowed = empty list or exact membership", fnPos(c.Prog, f), "returns allowedMap[name]; constant true only for an empty list", "IsAllowed admits names other than exact members of the list")
-	}
+	checkIsAllowedExact(c, res, "O15.6")
 
 	res.Explanation = "SSA of proxy.NewClusterConnection / createServer / createTCPServer / buildProxyServer / makeServerOptions (origin of the serverConfiguration that reaches each grpc.Server, content of both interceptor chains for every configuration), of interceptor.AccessControlInterceptor.Intercept / StreamIntercept (edge-sensitive must-pass-through of the allow-list and deny-list tests before the handler, PermissionDenied on refusal), of every forwarding method of both proxy servers (client method called = own name), and the generated FullMethodName constants of all service methods against the prefix constants the interceptor uses. Decides wiring and check-before-forward on every path; does not decide the contents of run-time allow-lists or gRPC's own dispatch."
 	res.Assumptions = []string{"grpc.ChainUnaryInterceptor / ChainStreamInterceptor run interceptors in slice order", "grpc dispatches a full method name to the handler registered under it", "api.MethodName returns the suffix after the last '/'"}
@@ -659,4 +625,75 @@ func checkForwarders(c *Ctx, res *report.Result, methods map[string][]string) {
 		}
 	}
 	_ = load.Module
+}
+
+// checkIsAllowedExact: AccessControl.IsAllowed is "empty list, or the argument itself is a key of the map", and
+// NewAccesControl keys the map by the list's elements themselves. Any normalisation (case folding, trimming,
+// prefixes) admits names that are not members of the list: Temporal names are case-sensitive.
+func checkIsAllowedExact(c *Ctx, res *report.Result, rule string) {
+	if f := resolve(c, res, rule, anchor{"auth", "*AccessControl", "IsAllowed"}); f != nil {
+		// returns true only under len(allowedMap)==0, otherwise the map lookup of the argument
+		ok := true
+		for _, b := range f.Blocks {
+			for _, ins := range b.Instrs {
+				ret, isR := ins.(*ssa.Return)
+				if !isR {
+					continue
+				}
+				if cb, isC := flow.ConstBool(flow.Ret(ret)[0]); isC {
+					if !cb {
+						continue
+					}
+					// constant true: must be under len(..)==0
+					g := flow.NormGuards(flow.Guards(b))
+					found := false
+					for _, x := range g {
+						if bo, isB := x.Cond.(*ssa.BinOp); isB && bo.Op == token.EQL && x.Side {
+							if n, isN := flow.ConstInt(bo.Y); isN && n == 0 {
+								found = true
+							}
+						}
+					}
+					if !found {
+						ok = false
+					}
+					continue
+				}
+				if lk, isL := flow.Ret(ret)[0].(*ssa.Lookup); !isL || lk.Index != ssa.Value(f.Params[1]) {
+					ok = false
+				}
+			}
+		}
+		res.Check(ok, rule, "AccessControl.IsAllowed = empty list or exact membership", fnPos(c.Prog, f), "returns allowedMap[name]; constant true only for an empty list", "IsAllowed admits names other than exact members of the list")
+	}
+	if f := resolve(c, res, rule, anchor{"auth", "", "NewAccesControl"}); f != nil {
+		n := 0
+		okKeys := true
+		for _, b := range f.Blocks {
+			for _, ins := range b.Instrs {
+				mu, isMU := ins.(*ssa.MapUpdate)
+				if !isMU {
+					continue
+				}
+				n++
+				// the key is the ranged element of the list parameter
+				k := flow.Strip(flow.ResolveLoad(mu.Key))
+				elem := false
+				if ld, isLd := k.(*ssa.UnOp); isLd {
+					if ia, isIA := ld.X.(*ssa.IndexAddr); isIA && flow.ResolveLoad(ia.X) == ssa.Value(f.Params[0]) {
+						elem = true
+					}
+				}
+				if ex, isEx := k.(*ssa.Extract); isEx {
+					if _, isN := ex.Tuple.(*ssa.Next); isN {
+						elem = true
+					}
+				}
+				if !elem {
+					okKeys = false
+				}
+			}
+		}
+		res.Check(okKeys && n > 0, rule, "NewAccesControl keys the map by the list's own elements", fnPos(c.Prog, f), "allowedMap[allowed] = true for allowed := range list", "the allow-list is stored under transformed keys (case folding, trimming, ...): names that are not in the list become members")
+	}
 }
